@@ -402,6 +402,7 @@ def finish(ctx, level="proof", checker_cmd="", trusted_base=None):
     known = [k for k in load_known() if k["property"] == ctx.prop]
     rc = 0
     reported = []
+    known_hits = []
     os.makedirs(os.path.join(OUT, "replays", ctx.prop), exist_ok=True)
     for old in os.listdir(os.path.join(OUT, "replays", ctx.prop)):
         os.remove(os.path.join(OUT, "replays", ctx.prop, old))
@@ -409,6 +410,8 @@ def finish(ctx, level="proof", checker_cmd="", trusted_base=None):
         match = next((k for k in known if _matches(k, v)), None)
         if match:
             print(f"KNOWN-FINDING: property={ctx.prop} {match['site']} {match['failure_class']}: {match['description']}")
+            known_hits.append(dict(site=v["site"], failure_class=v["failure_class"], occurrences=v["count"],
+                                   detail=str(v["detail"])[:300], case=v["case"]))
             continue
         replay = dict(property=ctx.prop, kind=v["kind"] if v["kind"] == "concrete" else "no-failing-input-found",
                       seed=ctx.seed, site=v["site"], failure_class=v["failure_class"], case=v["case"],
@@ -435,7 +438,10 @@ def finish(ctx, level="proof", checker_cmd="", trusted_base=None):
         broken=ctx.broken,
     )
     cov.update(ctx.extra)
+    cov["known_findings_hit"] = known_hits     # listed genuine defects this run reproduced (printed as KNOWN-FINDING lines)
     cov["repo"] = repo_provenance()
+    if cov["obligations"] == 0 or cov["discharged"] < cov["obligations"]:
+        cov["level_note"] = "the Lean obligations did not all check in this run: the verdict of this run rests on the run-time search only"
     ev = dict(property_id=ctx.prop, tier=ctx.tier, seed=ctx.seed, level=level, coverage=cov,
               assumptions=ctx.assumptions, wall_s=round(time.time() - ctx.t0, 2), violations=len(reported))
     write_evidence(ctx.prop, ev)
